@@ -212,14 +212,16 @@ func ruleC03(p *Program, r *Run) {
 	we := p.MustFunc(pkg, "writeExpression")
 	hjt := FuncObj(pkg, p.MustFunc(pkg, "hasJoinTerms"))
 	var pairs [][2]types.Object // (left flag, right flag) per call
-	ast.Inspect(we.Body, func(n ast.Node) bool {
-		if as, ok := n.(*ast.AssignStmt); ok && len(as.Lhs) == 2 && len(as.Rhs) == 1 {
-			if call, ok := as.Rhs[0].(*ast.CallExpr); ok && Callee(info, call) == hjt {
-				pairs = append(pairs, [2]types.Object{objOf(info, as.Lhs[0]), objOf(info, as.Lhs[1])})
+	for _, root := range p.regionOf(pkg, we.Body) {
+		ast.Inspect(root, func(n ast.Node) bool {
+			if as, ok := n.(*ast.AssignStmt); ok && len(as.Lhs) == 2 && len(as.Rhs) == 1 {
+				if call, ok := as.Rhs[0].(*ast.CallExpr); ok && Callee(info, call) == hjt {
+					pairs = append(pairs, [2]types.Object{objOf(info, as.Lhs[0]), objOf(info, as.Lhs[1])})
+				}
 			}
-		}
-		return true
-	})
+			return true
+		})
+	}
 	x := g.xParamOf(we)
 	eqC, _ := p.Parser.Types.Scope().Lookup("TokenEq").(*types.Const)
 	bare := 0
